@@ -6,7 +6,7 @@ from __future__ import annotations
 import contextlib
 from collections import ChainMap
 from functools import partial
-from typing import Any, ClassVar, Dict, Optional, Set, Type, cast
+from typing import Any, ClassVar, Dict, List, Optional, Set, Type, cast
 
 import wrapt
 from pydantic import Extra, root_validator
@@ -365,16 +365,27 @@ class PartialSchemas(PartialFactory):
 # if we do it earlier, might lead to problems with forward refs and circularity
 
 
+_checking: List[Type[MetadataSchema]] = []
+"""Schemas marked as checked in the course of the currently running check."""
+
+
 def check_types(schema: Type[MetadataSchema], *, recheck: bool = False):
     if schema is MetadataSchema or schema.__types_checked__ and not recheck:
         return
     schema.__types_checked__ = True  # (set first to terminate on recursive schemas)
+    is_outermost = not _checking
+    _checking.append(schema)
     try:
         _check_types(schema, recheck=recheck)
     except Exception:
         # a schema that failed the check is not "checked", it must fail again next time
-        schema.__types_checked__ = False
+        # (and so must the schemas that were passed only because it was still in progress)
+        for s in _checking if is_outermost else [schema]:
+            s.__types_checked__ = False
         raise
+    finally:
+        if is_outermost:
+            _checking.clear()
 
 
 def _check_types(schema: Type[MetadataSchema], *, recheck: bool):
